@@ -218,9 +218,25 @@ def register(op):
     def _(arg):
         """a macrostate is alive; another, different member set that shares members with it is requested without a name:
         either refused, or a macrostate named after / represented by ITS canonically smallest member"""
-        cspecs, set1, set2, k = arg
+        cspecs, set1, set2, k = arg[:4]
+        named = arg[4] if len(arg) > 4 else False
         fresh()
         cs = [cplx(s, name=f"X{i}") for i, s in enumerate(cspecs)]
+        if named:
+            # both macrostates carry user-chosen names (their canonically LARGEST members): different member sets, one possibly
+            # a prefix of the other in canonical order, are different objects that compare unequal
+            big = lambda idx: max((cs[i] for i in idx), key=lambda c: c.canonical_form).name
+            try:
+                m1 = MAC[k]([cs[i] for i in set1], name=big(set1))
+                m2 = MAC[k]([cs[i] for i in set2], name=big(set2))
+            except bc.SingletonError:
+                fresh()
+                return ["refused", False]
+            res = ["named", m1 is m2, m1 == m2, m1 != m2, m2 == m1, hash(m1) == hash(m2), len({m1, m2})]
+            m1 = m2 = None
+            del cs
+            fresh()
+            return res
         m1 = MAC[k]([cs[i] for i in set1])
         try:
             m2 = MAC[k]([cs[i] for i in set2])
